@@ -4,7 +4,7 @@
 WT="$1"; FILT="$2"
 cd "$WT" || exit 2
 export CARGO_NET_OFFLINE=true CARGO_TARGET_DIR="$WT/target" RUST_BACKTRACE=0
-git checkout -q -- . ; git clean -fdq -- saito-core saito-rust saito-wasm 2>/dev/null
+git reset -q; git checkout -q -- . ; git clean -fdq -- saito-core saito-rust saito-wasm 2>/dev/null
 git apply _seeded/demo.diff || { echo "demo.diff does not apply"; exit 2; }
 echo "--- demo on clean HEAD"
 cargo test -p saito-core --lib --offline "$FILT" -- --test-threads=1 2>&1 | grep -E "^test |test result" | head -8
@@ -13,4 +13,4 @@ echo "--- demo with patch"
 cargo test -p saito-core --lib --offline "$FILT" -- --test-threads=1 2>&1 | grep -E "^test |test result" | head -8
 echo "--- lib suite with patch (excluding demo)"
 cargo test -p saito-core --lib --offline -- --test-threads=4 --skip "$FILT" 2>&1 | grep -E "test result|FAILED|failed" | head -12
-git checkout -q -- . ; git clean -fdq -- saito-core saito-rust saito-wasm 2>/dev/null
+git reset -q; git checkout -q -- . ; git clean -fdq -- saito-core saito-rust saito-wasm 2>/dev/null
